@@ -135,6 +135,7 @@ fn main() {
                 println!("{tier:?}: {m:?}");
             }
         }
+        Some("debug-corelib") => c05corelib::debug(&args[1]),
         Some("dump-snip") => {
             for s in exec::snippets(Tier::Thorough) {
                 if s.name == args[1] {
